@@ -254,6 +254,7 @@ fn parent(prop: &str, tier: Tier) -> i32 {
         }
     }
 
+    props::prepare(prop);
     // 2. generated tiers on `lanes` processes
     let budget = match tier {
         Tier::Quick => Duration::from_secs(env_u64("VERIF_QUICK_BUDGET_S", 900)),
